@@ -303,10 +303,16 @@ fn extract_source_map<R: Read>(
 ) -> OriginalSourceMap {
     let mut source_map_comment = None;
     let mut source: Option<SourceMap> = None;
+    // the comments map has no stable iteration order: with several sourceMappingURL comments, the one
+    // closest to the end of the file is the effective one
+    let mut last_comment_pos = None;
     for trailing in comments.trailing.iter() {
         for comment in trailing.iter() {
             let trim_comment = comment.text.trim();
-            if trim_comment.starts_with(SOURCE_MAP_URL) {
+            if trim_comment.starts_with(SOURCE_MAP_URL)
+                && last_comment_pos.map_or(true, |pos| pos < comment.span.lo)
+            {
+                last_comment_pos = Some(comment.span.lo);
                 source_map_comment = Some(String::from(comment.text.as_str()));
                 let url = trim_comment.get(SOURCE_MAP_URL.len()..).unwrap();
                 source = decode_data_url(url)
